@@ -44,7 +44,7 @@ argument form of `GPR.eval`, alternating single-bound assignments, legacy note k
 reactions, explicitly empty lists, duplicate species references in third-party documents, rules longer than 100
 characters, FVA options under schedules, several calls on one parallel sampler object, bystander sampler objects,
 one-sided bound caps, trace requirements and a forced objective flux for media, pure calls before knock-outs, shared
-metadata containers of object copies, failures that do not repeat. Regression (`tools/all_seeds.sh`, end of session 3, quick tier, seed 1, after all generator changes; C05-C08 and C10-C20
+metadata containers of object copies, failures that do not repeat. Regression (`tools/all_seeds.sh`, end of session 3, quick tier, seed 1, after all generator changes; C04-C20
 re-run): every kept change is caught again except the documented ones; three had dropped out of the quick tier's reach and
 were brought back - C13-6 (it had only ever been "caught" through a genuine defect of the unchanged tree that is now listed,
 see its row), C14-5 and C07-6 (diluted by the newer dimensions; their shares were raised) - and C13-2 was re-made on the
